@@ -11,7 +11,8 @@ def handle (ts : List String) : Option String :=
     let (ds, _) ← Driver.C04.parseDirs nd rest
     match ds with
     | (_, _, root) :: leaves =>
-      let failIdx : Option Nat := fail.toNat?
+      -- `3p`: the failing fetch also hands back some bytes; to the caller it is the same failure
+      let failIdx : Option Nat := (if fail.endsWith "p" then (fail.dropEnd 1).toString else fail).toNat?
       let live : List (Nat × Nat × List Entry) :=
         match failIdx with
         | some 0 => leaves
